@@ -99,6 +99,16 @@ def now():
     return sim.currentTime if sim is not None else -1
 
 
+def rnd():
+    """Consumes the global generators (legitimate inside a requirement: Scenic promises to restore them)."""
+    import random
+
+    import numpy
+
+    return random.random() + float(numpy.random.random()) + random.gauss(0, 1e-9)
+
+
+_mod.rnd = rnd
 _mod.now = now
 _mod.Boom = Boom
 _mod.reset = reset
